@@ -81,8 +81,8 @@ def first_diff(a, b):
 @register
 class C11(SolverSuite):
     prop = "C11"
-    quick_runs = 1500
-    thorough_runs = 20000
+    quick_runs = 8000
+    thorough_runs = 100000
     rule = ("for one solver spec: canonical twin (Solve only), one-at-a-time reference, and a random composition of the "
             "iterations into DoGlobalIteration(k) batches followed by Solve (compositions that overshoot the stop point included), "
             "optionally Solve;Solve and Solve;GetResults;Solve; the variant is executed twice in one process. The objective logs "
@@ -255,8 +255,8 @@ class C12World(World):
 @register
 class C12(SolverSuite):
     prop = "C12"
-    quick_runs = 900
-    thorough_runs = 12000
+    quick_runs = 6000
+    thorough_runs = 80000
     rule = ("2-4 solver actors on different problems (different N), some created mid-run, interleaved at step boundaries and "
             "re-entrantly inside objective evaluations and listener callbacks of other actors (depth<=2). Oracle: (1) each actor's "
             "per-op observable summaries (objective log, search data, GetResults, returned Solutions) equal those of a solo run of "
@@ -450,8 +450,8 @@ def _point_str(sol):
 @register
 class C13(SolverSuite):
     prop = "C13"
-    quick_runs = 700
-    thorough_runs = 8000
+    quick_runs = 3000
+    thorough_runs = 36000
     rule = ("listener actors: Recording(S) = subclass of the base Listener overriding exactly the subset S of the three callbacks "
             "(all 8 subsets) and the shipped console/static/staticND/animation/animationND listeners in configurations valid for "
             "the dimension, 1-3 listeners per solver, drivers mixing DoGlobalIteration(k) and Solve. Oracle: attaching/running "
@@ -664,8 +664,8 @@ def _twin_for(spec):
 class C16(SolverSuite):
     prop = "C16"
     level = "fault_enumeration"
-    quick_runs = 40
-    thorough_runs = 500
+    quick_runs = 60
+    thorough_runs = 900
     chunk = 1
     rule = ("for every sampled (objective, box, parameters) the fault-free twin gives T trials; then EVERY evaluation index k in "
             "2..T (stride-sampled when T>120) x every exception kind (ValueError, ZeroDivisionError, MemoryError, StopIteration, "
